@@ -29,7 +29,9 @@ KEY_ORDER = ["precursor", "modified_peptide", "peptide", "peptide_group"]
 RENDER = [{"r": "rollup", "rb": "rollup2", "a": "a", "q": "mix"},
           {"r": "mix", "rb": "mixA", "a": "ctl", "q": "rollup"},
           {"r": "r", "rb": "r_old", "a": "exp1", "q": "q"},
-          {"r": "rollup", "rb": "rollup_old", "a": "b", "q": "roll"}]
+          {"r": "rollup", "rb": "rollup_old", "a": "b", "q": "roll"},
+          # a file root that itself holds a dot (--file_root exp1.rollup), next to a collection named like its first component
+          {"r": "exp1.rollup", "rb": "exp1.rollup2", "a": "exp1", "q": "exp1.roll"}]
 
 
 def _stem_key(stem):
@@ -68,7 +70,7 @@ def make_case(hist, seed, extra, ties=False):
     for i, r in enumerate(rows):
         r["rank"] = int(perm[i]) // 2 + 1 if ties else int(perm[i]) + 1
     return {"hist": hist, "seed": int(seed), "extra": list(extra), "rows": rows, "content": {"%s/%d" % k: v for k, v in content.items()},
-            "render": int(seed) % len(RENDER), "ties": bool(ties)}
+            "render": (int(seed) % 100000 // 5 + int(seed)) % len(RENDER), "ties": bool(ties)}
 
 
 def _parse(path, nrows):
@@ -89,12 +91,12 @@ def _own_files(d, root, nrows):
     for fn in sorted(os.listdir(d)):
         if not fn.startswith(root + "."):
             continue
-        parts = fn.split(".")
-        if len(parts) != 3 or parts[1] not in ("targets", "decoys", "temp"):
+        parts = fn[len(root) + 1:].split(".")
+        if len(parts) != 2 or parts[0] not in ("targets", "decoys", "temp"):
             continue
         ids, qs = _parse(d / fn, nrows)
-        out.append({"td": {"targets": "t", "decoys": "d", "temp": "temp"}[parts[1]], "lvl": parts[2][:-1], "ids": ids,
-                    "q": qs if parts[1] != "temp" else []})
+        out.append({"td": {"targets": "t", "decoys": "d", "temp": "temp"}[parts[0]], "lvl": parts[1][:-1], "ids": ids,
+                    "q": qs if parts[0] != "temp" else []})
     return out
 
 
@@ -294,7 +296,7 @@ def run_family(ctx, owner, n_model, n_random):
     if bad:
         ctx.negative_controls("RollupToolTrace", "Trace.cfg", bad, name="rollup histories: entity lost / targets in the decoy file (C03), input modified / differs from clean (C09)")
     ctx.assume("rollup histories: collections are written by the real assign_confidence (text format), every collection keeps targets and decoys; "
-               "file roots and prefixes contain no dot; the tool is called through do_rollup with a stub PEP algorithm")
+               "collection prefixes contain no dot other than as part of a shared leading component (file roots may: exp1.rollup); the tool is called through do_rollup with a stub PEP algorithm")
     return len(cases)
 
 
